@@ -359,8 +359,10 @@ class DesignSpace:
             lower_bound=variable.lower_bound[dimensions],
             upper_bound=variable.upper_bound[dimensions],
         )
-        if name in self.__current_value:
-            self.set_current_variable(name, self.get_current_value(name)[dimensions])
+        self._add_norm_policy(name)
+        current_value = self.__current_value.get(name)
+        if current_value is not None:
+            self.set_current_variable(name, current_value[dimensions])
 
         # Update the mapping from names to array indices
         name_reached = False
